@@ -297,6 +297,8 @@ def _sp_file_iteration_ok(eng, args, kw, n):
     opens = [e for k, e in calls if k == "open"]
     for e in opens:
         mode = e["mode"].v if isinstance(e["mode"], Conc) else None
+        if e["options"].v:
+            return Conc(False)        # every entry point opens its files the same, default way (C16: identical content)
         if mode == "r":
             if not _same(eng, e["path"], inp):
                 return Conc(False)
@@ -351,7 +353,8 @@ def _sp_opens_only(eng, args, kw, n):
     if len(opens) > 1:
         return Conc(False)
     for e in opens:
-        if not (isinstance(e["mode"], Conc) and e["mode"].v == "w" and _same(eng, e["path"], eng.st.vars[args[0].v])):
+        if not (isinstance(e["mode"], Conc) and e["mode"].v == "w" and not e["options"].v
+                and _same(eng, e["path"], eng.st.vars[args[0].v])):
             return Conc(False)
     return Conc(True)
 
@@ -398,3 +401,33 @@ R.contract(M + "anonymize_files@impl",
 # the walk-loop step needs a chain of instances (nth of a concatenation -> soundness of the filtered comprehension ->
 # pair projections -> introduction rule of Mirror): more instantiation rounds than the default two
 R.contracts[M + "anonymize_files@impl"].inst_rounds = 5
+
+
+# ---------------------------------------------------------------- FileAnonymizer.anonymize_file (C16): single-file API
+def _sp_single_file_ok(eng, args, kw, n):
+    """SingleFileOK('in_file', 'out_file'): the input is opened for reading and the output for writing, in that order,
+    both the default way (no newline/encoding/... option - the same way anonymize_files opens them, so that every
+    entry point produces identical content), and the stream function is applied once, to self"""
+    calls = list(eng.st.calls)
+    opens = [e for k, e in calls if k == "open"]
+    if len(opens) != 2:
+        return Conc(False)
+    for e, var, mode in ((opens[0], args[0].v, "r"), (opens[1], args[1].v, "w")):
+        if not (isinstance(e["mode"], Conc) and e["mode"].v == mode and not e["options"].v
+                and _same(eng, e["path"], eng.st.vars[var])):
+            return Conc(False)
+    ios = [e for k, e in calls if k.endswith("FileAnonymizer.anonymize_io")]
+    if len(ios) != 1 or not _same(eng, ios[0]["self"], eng.st.vars["self"]):
+        return Conc(False)
+    return Conc(True)
+
+
+SPEC_BUILTINS["SingleFileOK"] = _sp_single_file_ok
+R.contract(M + "FileAnonymizer.anonymize_file",
+           types={"self": FA, "in_file": STR, "out_file": STR}, returns=NONE,
+           requires=[WF4, WF6, ASOK, WOK],
+           modifies=["self.pwd_lookup", "self.anonymizer4.cache", "self.anonymizer6.cache",
+                     "self.anonymizer_sensitive_word.sens_word_replacements", "log"],
+           raises={"ValueError": None, "OSError": None, "UnicodeDecodeError": None},
+           raises_ensures=["implies(raised('ValueError'), ncalls('open') == 0)"],
+           ensures=[WF4, WF6, ASOK, WOK, "SingleFileOK('in_file', 'out_file')"])
